@@ -72,6 +72,7 @@ type World struct {
 	Timeout    time.Duration
 	IO         IOState
 	ChunkMem   bool            // values are held in memory as chunks (neutral callback configuration of C17)
+	CmpOf      map[string]int  // comparator id per collection name (what the application supplies at load time)
 	Digests    []string        // per step: "<len> <md5>" of the file (when RunCfg.Digests)
 	Roots      [][]byte        // root records written by the successful flushes so far
 	PreImage   []byte          // file image before the Flush in progress
@@ -258,7 +259,8 @@ func (w *World) do(op Op) string {
 	s := h.Store
 	switch op.K {
 	case "coll":
-		s.SetCollection(op.Name, comparators[op.N])
+		// method values of one method on different receivers: distinct comparators that share a code pointer
+		s.SetCollection(op.Name, cmpObj{op.N}.Compare)
 		return "ok"
 	case "rmcoll":
 		s.RemoveCollection(op.Name)
@@ -316,6 +318,25 @@ func (w *World) do(op Op) string {
 		return "ok"
 	case "copyto":
 		return w.copyTo(op, h)
+	case "copyfail":
+		// CopyTo onto a destination whose writes fail: must return an error and leave the source as it was
+		res, err := h.Store.CopyTo(&failingWrites{MemFile: NewMemFile()}, 1)
+		if err == nil {
+			if res != nil {
+				res.Close()
+			}
+			if h.Ref != nil && len(h.Ref.Colls) > 0 {
+				n := 0
+				for _, c := range h.Ref.Colls {
+					n += len(c.Items)
+				}
+				if n > 0 {
+					return "ok-although-destination-writes-fail"
+				}
+			}
+			return "err"
+		}
+		return "err"
 	}
 	c := w.coll(op)
 	if c == nil {
@@ -377,6 +398,8 @@ func (w *World) do(op Op) string {
 	case "evict":
 		c.EvictSomeItems()
 		return "ok"
+	case "cwrite":
+		return errs(c.Write())
 	case "asc", "desc":
 		var vs []visited
 		vis := func(i *gkvlite.Item) bool {
@@ -506,13 +529,17 @@ func (w *World) do(op Op) string {
 			time.Sleep(20 * time.Microsecond)
 		}
 		return sb.String()
-	case "vmut":
+	case "vmut", "vmutd":
 		// a visit whose visitor mutates the store it is visiting (the mutating goroutine may do that):
 		// the visit must keep delivering the version it started on
 		var vs []visited
 		other := s.GetCollection(op.Name + "-other")
 		var nerr error
-		err := c.VisitItemsAscendEx(op.Key, true, func(i *gkvlite.Item, d uint64) bool {
+		visitFn := c.VisitItemsAscendEx
+		if op.K == "vmutd" {
+			visitFn = c.VisitItemsDescendEx
+		}
+		err := visitFn(op.Key, true, func(i *gkvlite.Item, d uint64) bool {
 			vs = append(vs, copyItem(i, d))
 			j := len(vs)
 			switch j % 3 {
@@ -521,8 +548,10 @@ func (w *World) do(op Op) string {
 					nerr = e
 				}
 			case 1:
-				if e := c.SetItem(&gkvlite.Item{Key: append([]byte("nest-"), i.Key...), Val: []byte{byte(j)}, Priority: int32(1000 + j)}); e != nil {
-					nerr = e
+				if len(i.Key)+5 <= 0xffff {
+					if e := c.SetItem(&gkvlite.Item{Key: append([]byte("nest-"), i.Key...), Val: []byte{byte(j)}, Priority: int32(1000 + j)}); e != nil {
+						nerr = e
+					}
 				}
 			case 2:
 				if other != nil {
@@ -702,6 +731,7 @@ func (w *World) Expect(op Op) string {
 		} else {
 			h.Ref = NewRefStore()
 		}
+		w.loadTimeComparators(h.Ref)
 		return "ok"
 	case "reopen", "junk":
 		if w.File == nil {
@@ -712,9 +742,12 @@ func (w *World) Expect(op Op) string {
 		} else {
 			h.Ref = NewRefStore()
 		}
+		w.loadTimeComparators(h.Ref)
 		return "ok"
 	case "snap", "close", "copyto":
 		return "ok"
+	case "copyfail":
+		return "err"
 	}
 	c, ok := r.Colls[op.Name]
 	if !ok {
@@ -769,6 +802,11 @@ func (w *World) Expect(op Op) string {
 		n, b := c.totals()
 		return fmt.Sprintf("t:%d:%d", n, b)
 	case "evict":
+		return "ok"
+	case "cwrite":
+		if h.RO || w.File == nil {
+			return "err"
+		}
 		return "ok"
 	case "asc", "itasc", "ascx", "nasc", "nit":
 		var vs []visited
@@ -836,15 +874,23 @@ func (w *World) Expect(op Op) string {
 			}
 		}
 		return visObs(vs, op.WV, false, nil)
-	case "vmut":
+	case "vmut", "vmutd":
 		if h.RO {
 			return "?"
 		}
 		var vs []visited
 		var seq []RefItem
-		for _, it := range c.Items {
-			if cmp(op.Key, it.Key) <= 0 {
-				seq = append(seq, it)
+		if op.K == "vmut" {
+			for _, it := range c.Items {
+				if cmp(op.Key, it.Key) <= 0 {
+					seq = append(seq, it)
+				}
+			}
+		} else {
+			for j := len(c.Items) - 1; j >= 0; j-- {
+				if cmp(op.Key, c.Items[j].Key) > 0 {
+					seq = append(seq, c.Items[j])
+				}
 			}
 		}
 		other := r.Colls[op.Name+"-other"]
@@ -944,7 +990,11 @@ func (w *World) copyTo(op Op, h *Handle) string {
 	}
 	if op.N > 0 {
 		img := dst.Bytes()
-		s2, err := gkvlite.NewStoreEx(NewMemFileFrom(img), w.CB)
+		cb2 := w.CB
+		if cb2.KeyCompareForCollection == nil {
+			cb2.KeyCompareForCollection = func(name string) gkvlite.KeyCompare { return comparators[w.CmpOf[name]] }
+		}
+		s2, err := gkvlite.NewStoreEx(NewMemFileFrom(img), cb2)
 		if err != nil {
 			if len(h.Ref.Colls) == 0 && len(img) == 0 {
 				return "ok"
@@ -985,4 +1035,26 @@ func encItemRecord(it RefItem) []byte {
 	binary.BigEndian.PutUint32(b[12:], uint32(it.Prio))
 	b = append(b, it.Key...)
 	return append(b, it.Val...)
+}
+
+type cmpObj struct{ id int }
+
+func (c cmpObj) Compare(a, b []byte) int { return comparators[c.id](a, b) }
+
+// failingWrites is a StoreFile whose WriteAt always fails (reads and Stat work).
+type failingWrites struct{ *MemFile }
+
+func (f *failingWrites) WriteAt(p []byte, off int64) (int, error) { return 0, errInjected }
+
+// loadTimeComparators: collections loaded from the file (re-open, FlushRevert) get the comparator the
+// application supplies through KeyCompareForCollection (the one last installed for that name), or
+// bytes.Compare when no such callback is installed.
+func (w *World) loadTimeComparators(r *RefStore) {
+	for name, c := range r.Colls {
+		if w.CB.KeyCompareForCollection != nil {
+			c.Cmp = w.CmpOf[name]
+		} else {
+			c.Cmp = 0
+		}
+	}
 }
